@@ -469,7 +469,23 @@ func (s fsrcTRef) FetchReference(ctx context.Context, ref string) (ocispec.Descr
 	return d, &prologueReader{r: rc, f: f, half: d.Size / 2}, nil
 }
 
-type fdst struct{ f *fcall }
+type fdst struct {
+	f   *fcall
+	dmu sync.Map // digest -> *sync.Mutex
+}
+
+// lockDigest serialises the wrapper's operations on one digest (free-running mode), so that for two
+// descriptors with the same bytes ("twins": one key in a digest-keyed store) the recorded order of the
+// Exists / Push events is the order of their effects.  Controlled schedules generate no twins.
+func (d *fdst) lockDigest(t ocispec.Descriptor) func() {
+	if d.f.fs != nil {
+		return func() {}
+	}
+	m, _ := d.dmu.LoadOrStore(t.Digest.String(), &sync.Mutex{})
+	mu := m.(*sync.Mutex)
+	mu.Lock()
+	return mu.Unlock
+}
 
 func (d *fdst) Fetch(ctx context.Context, t ocispec.Descriptor) (io.ReadCloser, error) {
 	return d.f.under.Fetch(ctx, t)
@@ -482,6 +498,7 @@ func (d *fdst) Resolve(ctx context.Context, ref string) (ocispec.Descriptor, err
 func (d *fdst) Exists(ctx context.Context, t ocispec.Descriptor) (bool, error) {
 	f := d.f
 	n := f.node(t)
+	defer d.lockDigest(t)()
 	f.ev(fmt.Sprintf("XB.%d", n), 0, 1)
 	f.pause(n)
 	if f.hit("exists", n, false) {
@@ -558,6 +575,7 @@ func (d *fdst) push(ctx context.Context, t ocispec.Descriptor, rd io.Reader, ref
 	if ref != "" {
 		isRef = 1
 	}
+	defer d.lockDigest(t)()
 	f.ev(fmt.Sprintf("PB.%d.%d", n, isRef), 0, 1)
 	f.pause(n)
 	if f.hit("push", n, false) {
@@ -1075,6 +1093,7 @@ func ExecuteF(c *FCase, watchdog time.Duration) *FResult {
 
 func fModelInput(c *FCase, g *dag.Graph, roots []int, d0 []int, toks []string, rp string) string {
 	var nodes []string
+	first := map[string]int{}
 	for _, n := range g.Nodes {
 		fl := ""
 		if n.Foreign() {
@@ -1086,7 +1105,19 @@ func fModelInput(c *FCase, g *dag.Graph, roots []int, d0 []int, toks []string, r
 		if fl == "" {
 			fl = "-"
 		}
-		nodes = append(nodes, fmt.Sprintf("%s/%d/%s", fl, n.ID, ints(n.Succ)))
+		dk := n.ID
+		if DigestKeyed(c.Dst) {
+			k := n.Desc.Digest.String()
+			if c.Dst == "remote" {
+				k = fmt.Sprint(n.IsManifest(), k) // a registry keeps manifests and blobs apart
+			}
+			if f0, ok := first[k]; ok {
+				dk = f0
+			} else {
+				first[k] = n.ID
+			}
+		}
+		nodes = append(nodes, fmt.Sprintf("%s/%d/%s", fl, dk, ints(n.Succ)))
 	}
 	tr := "-"
 	if len(toks) > 0 {
@@ -1316,14 +1347,18 @@ func shared2Graph(r *common.Rand, tag uint64) (*dag.Graph, shared2Roles, []int) 
 	return g, ro, extra
 }
 
-func distinctDigests(g *dag.Graph) bool {
-	seen := map[string]bool{}
+// distinctDigests: no two nodes with one digest, except blob twins (same bytes under two blob media types:
+// both leaves, so mt_consistent holds) when allowTwins
+func distinctDigests(g *dag.Graph, allowTwins bool) bool {
+	seen := map[string]*dag.Node{}
 	for _, n := range g.Nodes {
 		k := n.Desc.Digest.String()
-		if seen[k] {
-			return false
+		if o, dup := seen[k]; dup {
+			if !allowTwins || n.IsManifest() || o.IsManifest() || len(n.Succ) > 0 || len(o.Succ) > 0 || n.Desc.MediaType == o.Desc.MediaType {
+				return false
+			}
 		}
-		seen[k] = true
+		seen[k] = n
 	}
 	return true
 }
@@ -1338,6 +1373,7 @@ func GenerateF(genseed uint64, stream string, thorough bool) *FCase {
 		return generateShared2(r, c)
 	}
 	var g *dag.Graph
+	twins := false
 	shared := stream == "shared" || stream == "schedshared" || ((stream == "exh") && r.Chance(1, 2))
 	for {
 		if shared {
@@ -1352,6 +1388,10 @@ func GenerateF(genseed uint64, stream string, thorough bool) *FCase {
 				o.MaxNodes = 8
 			}
 			g = dag.Random(r, o)
+			if stream == "rand" && r.Chance(1, 5) {
+				addBlobTwin(r, g) // same bytes under two blob media types, referenced by further manifests
+				twins = true
+			}
 		}
 		real := false
 		for _, n := range g.Nodes {
@@ -1359,7 +1399,7 @@ func GenerateF(genseed uint64, stream string, thorough bool) *FCase {
 				real = true
 			}
 		}
-		if real && distinctDigests(g) {
+		if real && distinctDigests(g, twins) {
 			break
 		}
 	}
@@ -1817,6 +1857,19 @@ func DriveF(run *common.Run, b FBudget) {
 		}
 		if c.CustomFS {
 			run.Count("custom-FindSuccessors")
+		}
+		{
+			dg := map[string]bool{}
+			for _, nd := range g.Nodes {
+				if dg[nd.Desc.Digest.String()] {
+					run.Count("blob-twin(same bytes, two media types)")
+					if DigestKeyed(c.Dst) {
+						run.Count("blob-twin into a digest-keyed destination")
+					}
+					break
+				}
+				dg[nd.Desc.Digest.String()] = true
+			}
 		}
 		if len(c.Cut) > 0 {
 			run.Count("nested-roots(FindPredecessors cut)")
